@@ -376,6 +376,29 @@ def check_r4c(eng, rep, cq, fi, summ, ename):
         if any(ev is not None for _, ev in handed):
             rep.holds("R4c", "C19.R4c", fi.qname, "yields-fresh:" + eng.prog.classes[cq].name,
                       "no element handed out by the generator is a builtin container kept inside an operand")
+    # a generator that yields a mutable builtin container it ALSO keeps in its own working storage (appended to / stored in
+    # another container of the frame) and goes on: the consumer holds the very object later answers are built from, so
+    # editing a received element changes what the generator yields next (aliasing between an answer and live state)
+    ys = [(v, ev) for v, ev in handed if ev is not None and v.types is not None and v.types and v.types <= CONT]
+    if ys:
+        kept = {}
+        for w in summ.events:
+            if w.kind == "write" and w.value is not None and w.func is fi and \
+                    w.wkind in ("mutate:append", "mutate:add", "mutate:insert", "mutate:appendleft", "subscript", "mutate:setdefault"):
+                for l in w.value.alias:
+                    if l[0].startswith("fresh:") and not l[1]:
+                        kept.setdefault(l, w)
+        bad = [(v, ev, l) for v, ev in ys for l in v.alias if l in kept]
+        if bad:
+            v, ev, l = bad[0]
+            rep.violation("R4c", "C19.R4c", fi.qname, "yields-retained-storage",
+                          "%s yields a %s that it also keeps in its own working storage (%s): a consumer that edits the received "
+                          "element changes the elements yielded afterwards" % (ename, "/".join(sorted(v.types)),
+                                                                               kept[l].site.text[:60]),
+                          site=ev.site.to_json(), path=[ename])
+        else:
+            rep.holds("R4c", "C19.R4c", fi.qname, "yields-not-retained:" + eng.prog.classes[cq].name,
+                      "no mutable element handed out by the generator is also kept in its working storage")
     if ret.types is None and not ret.alias:
         return
     mut_types = set()
